@@ -92,7 +92,7 @@ func TestVerifBoundedC30RangeModel(t *testing.T) {
 		t.Fatalf("fixture content is %q", whole)
 	}
 	etag := res.Header.Get("Etag")
-	items := []string{"0-0", "0-4", "0-5", "1-3", "2-", "4-", "4-4", "5-", "5-9", "6-", "-0", "-1", "-5", "-6", "-9", "3-1", "a-b", "-", "2", " 1 - 2 "}
+	items := []string{"0-0", "0-4", "0-5", "1-3", "2-5", "4-5", "2-", "4-", "4-4", "5-", "5-9", "6-", "-0", "-1", "-5", "-6", "-9", "3-1", "a-b", "-", "2", " 1 - 2 "}
 	var headers []string
 	for _, a := range items {
 		headers = append(headers, "bytes="+a)
